@@ -218,6 +218,7 @@ type WorkerOut struct {
 	KnownWhat   map[string]string         `json:"known_what"`
 	Aborted     []string                  `json:"aborted"`
 	Leaks       int                       `json:"leaks"`
+	LeakSeeds   []uint64                  `json:"leak_seeds"`
 	Seeds       []uint64                  `json:"first_seeds"`
 	LogHashes   map[string]string         `json:"log_hashes,omitempty"`
 	ExtraCounts map[string]map[string]int `json:"extra,omitempty"`
@@ -344,6 +345,7 @@ func TestWorker(t *testing.T) {
 		}
 		if res.Leaked {
 			out.Leaks++
+			out.LeakSeeds = append(out.LeakSeeds, seed)
 		}
 		if res.Aborted != "" {
 			out.Aborted = append(out.Aborted, fmt.Sprintf("seed %d: %s", seed, res.Aborted))
